@@ -14,6 +14,7 @@ import (
 	"net/http/httptest"
 	"os"
 	"path/filepath"
+	"runtime/debug"
 	"strings"
 	"testing"
 
@@ -187,6 +188,37 @@ type admitted struct {
 	Allowed    bool
 	Message    string // set when the webhook reported an error
 	Patch      []byte // nil: object left as it is
+	Panic      string // the handler panicked (value and first istio frame)
+}
+
+// serveRecovering runs the handler and turns a panic of the code under test into a value.
+func serveRecovering(h http.Handler, rec *httptest.ResponseRecorder, req *http.Request) (panicValue, where string) {
+	defer func() {
+		if r := recover(); r != nil {
+			panicValue = fmt.Sprint(r)
+			where = "?"
+			lines := strings.Split(string(debug.Stack()), "\n")
+			for i, l := range lines {
+				if strings.HasPrefix(l, "istio.io/istio/pkg/kube/inject.") && i+1 < len(lines) {
+					fn := l
+					if j := strings.Index(fn, "("); j > 0 {
+						fn = fn[:j]
+					}
+					loc := strings.TrimSpace(lines[i+1])
+					if j := strings.Index(loc, " +0x"); j > 0 {
+						loc = loc[:j]
+					}
+					if j := strings.Index(loc, "/pkg/kube/inject/"); j >= 0 {
+						loc = loc[j+1:]
+					}
+					where = strings.TrimPrefix(fn, "istio.io/istio/pkg/kube/") + " " + loc
+					break
+				}
+			}
+		}
+	}()
+	h.ServeHTTP(rec, req)
+	return "", ""
 }
 
 // admit posts an AdmissionReview for the pod (given as JSON) to /inject.
@@ -210,7 +242,10 @@ func (w *webhook) admit(podJSON []byte, reqNamespace, apiVersion string) (admitt
 	req := httptest.NewRequest(http.MethodPost, "http://istiod.istio-system.svc/inject", bytes.NewReader(body))
 	req.Header.Set("Content-Type", "application/json")
 	rec := httptest.NewRecorder()
-	w.mux.ServeHTTP(rec, req)
+	if pv, where := serveRecovering(w.mux, rec, req); pv != "" {
+		// net/http would recover this per connection and close it: the API server sees a failed call
+		return admitted{Panic: "panic: " + pv + " at " + where}, nil
+	}
 	out := admitted{HTTPStatus: rec.Code}
 	if rec.Code != http.StatusOK {
 		out.Message = strings.TrimSpace(rec.Body.String())
